@@ -25,7 +25,8 @@ def copy(arr):
 
 
 def tobytes(arr):
-    if isinstance(arr, np.ndarray):
+    # (a fully marginalized factor holds a numpy scalar)
+    if isinstance(arr, (np.ndarray, np.generic)):
         return arr.tobytes()
     else:
         return arr.numpy(force=True).tobytes()
